@@ -1476,3 +1476,134 @@ pub fn c15_stalled_test(_w: &mut (), c: &StalledClient) -> Verdict {
 fn early_flag(o: &Option<(Result<Result<(), String>, ()>, Duration)>, stall_ms: u64) -> bool {
     matches!(o, Some((_, at)) if at.as_millis() < stall_ms as u128)
 }
+
+// ------------------------------------------------------------------------------------------
+// C08 over real sockets: connection A stops in the middle of a body that its handler does not read
+// (the application thread that answered A waits for the rest of that body); connection B has a
+// request with an unread body of its own and a further request behind it.  B is served while A
+// stays as it is.  Differential and re-measured, like the other real-time C08 parts.
+
+#[derive(Clone, Debug, Serialize, Deserialize)]
+pub struct HalfBody {
+    pub tcp: bool,
+    /// bytes of A's 6000-byte body that are sent
+    pub a_sent: usize,
+    /// B's body length (streamed: above 1024)
+    pub b_len: usize,
+    /// B's requests behind the one with the body
+    pub b_followers: usize,
+}
+
+pub fn c08_half_body_strategy() -> BoxedStrategy<HalfBody> {
+    (any::<bool>(), prop_oneof![Just(0usize), Just(1usize), Just(1500usize), 0usize..5999], prop_oneof![Just(1025usize), Just(3000usize), Just(20000usize)], 1usize..3).prop_map(|(tcp, a_sent, b_len, b_followers)| HalfBody { tcp, a_sent, b_len, b_followers }).boxed()
+}
+
+/// Some(true): B had all its answers while A was stalled.  Some(false): only after A had gone.
+fn c08_half_body_experiment(c: &HalfBody) -> Option<bool> {
+    let path = format!("{}/target/tmp/c08hb-{}-{:?}.sock", vcore::report::verif_root(), std::process::id(), std::thread::current().id()).replace(['(', ')'], "");
+    let _ = std::fs::remove_file(&path);
+    let server = if c.tcp { tiny_http::Server::http("127.0.0.1:0").ok()? } else { tiny_http::Server::http_unix(std::path::Path::new(&path)).ok()? };
+    let server = Arc::new(server);
+    let addr = server.server_addr();
+    let connect = || -> std::io::Result<Cs> {
+        match &addr {
+            tiny_http::ListenAddr::IP(a) => std::net::TcpStream::connect_timeout(a, Duration::from_secs(2)).map(Cs::T),
+            tiny_http::ListenAddr::Unix(_) => std::os::unix::net::UnixStream::connect(&path).map(Cs::U),
+        }
+    };
+    // two application threads, each answering without reading
+    let mut apps = vec![];
+    for _ in 0..2 {
+        let s = server.clone();
+        apps.push(std::thread::spawn(move || {
+            while let Ok(rq) = s.recv() {
+                let body = format!("answer to {}", rq.url());
+                let _ = rq.respond(tiny_http::Response::from_string(body));
+            }
+        }));
+    }
+    let mut a = connect().ok()?;
+    let mut wire = b"POST /a HTTP/1.1\r\nHost: h\r\nContent-Length: 6000\r\n\r\n".to_vec();
+    wire.extend(std::iter::repeat(b'a').take(c.a_sent.min(5999)));
+    a.w(&wire).ok()?;
+    // A has its answer: the thread that gave it is now waiting for the rest of A's body
+    {
+        let mut buf = [0u8; 512];
+        match &mut a {
+            Cs::T(s) => {
+                s.set_read_timeout(Some(Duration::from_secs(5))).ok()?;
+                let n = s.read(&mut buf).ok()?;
+                if n == 0 {
+                    return None;
+                }
+            }
+            Cs::U(s) => {
+                s.set_read_timeout(Some(Duration::from_secs(5))).ok()?;
+                let n = s.read(&mut buf).ok()?;
+                if n == 0 {
+                    return None;
+                }
+            }
+        }
+    }
+    std::thread::sleep(Duration::from_millis(30));
+    let mut b = connect().ok()?;
+    let mut wire = format!("POST /b0 HTTP/1.1\r\nHost: h\r\nContent-Length: {}\r\n\r\n", c.b_len).into_bytes();
+    wire.extend(std::iter::repeat(b'b').take(c.b_len));
+    for k in 0..c.b_followers {
+        let last = k + 1 == c.b_followers;
+        wire.extend_from_slice(format!("GET /b{} HTTP/1.1\r\nHost: h\r\n{}\r\n", k + 1, if last { "Connection: close\r\n" } else { "" }).as_bytes());
+    }
+    b.w(&wire).ok()?;
+    let want = 1 + c.b_followers;
+    let count = |got: &[u8]| -> usize {
+        let mut pos = 0;
+        let mut n = 0;
+        while pos < got.len() {
+            match vcore::respparse::parse_one(&got[pos..], false) {
+                Ok(m) => {
+                    pos += m.consumed;
+                    n += 1;
+                }
+                Err(_) => break,
+            }
+        }
+        n
+    };
+    let got = b.read_all(Duration::from_secs(4));
+    let in_time = count(&got) >= want;
+    // A goes away; whatever was waiting for it goes on
+    drop(a);
+    let mut all = got;
+    if !in_time {
+        all.extend(b.read_all(Duration::from_secs(4)));
+    }
+    let after = count(&all) >= want;
+    for _ in 0..2 {
+        server.unblock();
+    }
+    for h in apps {
+        let _ = h.join();
+    }
+    drop(server);
+    let _ = std::fs::remove_file(&path);
+    if in_time {
+        Some(true)
+    } else if after {
+        Some(false)
+    } else {
+        None
+    }
+}
+
+pub fn c08_half_body_test(_w: &mut (), c: &HalfBody) -> Verdict {
+    let classes = |g: Good| g.class(if c.tcp { "tcp" } else { "unix" }).class(format!("b-followers={}", c.b_followers));
+    match c08_half_body_experiment(c) {
+        None => Verdict::Pass(classes(Good::trivial()).class("scenario-not-set-up")),
+        Some(true) => Verdict::Pass(classes(Good::nontrivial())),
+        Some(false) => match c08_half_body_experiment(c) {
+            Some(false) => fail("C08/real/connection-waits-for-another-connections-unsent-body", format!("twice in a row: connection B ({} requests, the first with an unread body of {} bytes) had its answers only after connection A, stalled after {} of its 6000 body bytes, had gone; two application threads were serving", 1 + c.b_followers, c.b_len, c.a_sent)),
+            _ => Verdict::Pass(classes(Good::trivial()).class("slow-once-not-repeated")),
+        },
+    }
+}
